@@ -175,3 +175,25 @@ Proof.
   - specialize (J cd Hcd). rewrite A, B in J. destruct (rget (fst cd) c) as [a|]; [|discriminate]. destruct (rget (snd cd) p) as [b|]; [|discriminate].
     apply ueqb_eq in J. subst. eauto.
 Qed.
+
+(* C08 at a joined row: the fourth component of the statement is generated from the CHILD row alone -- whatever the parent
+   row holds under the same column names *)
+Lemma spec_join_line_graph_of_child scfg rl q csr psr x :
+  spec_join_line scfg rl q csr psr = Some x -> exists t, spec_graph_line scfg rl csr t = Some x.
+Proof.
+  unfold spec_join_line. destruct (spec_lex scfg (r_sk rl) (r_sv rl) (r_stt rl) [] csr) as [s|]; [|discriminate].
+  destruct (spec_po_gen scfg (join_rule rl q) csr psr) as [[p o]|]; [|discriminate]. intro H. eauto.
+Qed.
+Lemma join_row_graph_from_child_row : forall cfg fe scfg, cfg_agree cfg scfg -> c_nquads cfg = s_nquads scfg ->
+  forall rl q, pos_ok (r_sk rl) (r_sv rl) (r_stt rl) -> pos_ok (r_pk rl) (r_pv rl) TIri ->
+    (is_plain (r_sk q) = true /\ term_wf (r_sk q) (r_sv q) = true /\ (r_ott rl = TLit -> lits_neutral (segs_of (r_sk q) (r_sv q)) = true)) ->
+    (r_ld rl <> LDNone -> pos_ok (r_ldk rl) (r_ldv rl) TNone) -> graph_ok (c_nquads cfg) rl ->
+  forall x csr psr, row_agree scfg csr [] x (child_names rl) -> row_agree scfg psr parent_prefix x (parent_names q) ->
+  forall ls, (rdo ts <- mat_terms cfg fe (join_rule rl q) parent_prefix x;
+              rdo fs <- rflat_rows (finish_row cfg fe 0 rl) ts; extract_triples fs) = Ok ls ->
+    exists line t, ls = [line] /\ spec_graph_line scfg rl csr t = Some line.
+Proof.
+  intros cfg fe scfg Hcfg Hnq rl q HS HP HO HL HG x csr psr Hc Hp ls E.
+  pose proof (join_row_is_spec cfg fe scfg Hcfg Hnq rl q HS HP HO HL HG x csr psr Hc Hp) as T. rewrite E in T.
+  destruct T as (line & Hl & ->). destruct (spec_join_line_graph_of_child _ _ _ _ _ _ Hl) as (t & Ht). eauto.
+Qed.
